@@ -80,6 +80,10 @@ def doc(pid, what, sec):
 CHECKS['C08'] = doc('C08', 'clauses C08_reparse, C08_trip (Equiv with decimal re-spelling only at non-integer decimal positions), C08_stable (second trip byte-identical)', 'DESIGN.md 3.5, 6 C08')
 CHECKS['C09'] = doc('C09', 'clauses C09_accept, C09_trip (valid input), C09_noloss (any input: raise or lose nothing)', 'DESIGN.md 3.5, 6 C09')
 CHECKS['C14'] = doc('C14', 'clauses C14_copies, C14_faithful (same text, same xsd_check), C14_unchanged (original untouched), C14_frame (mutating one tree never changes the other)', 'DESIGN.md 3.5, 6 C14')
+CHECKS['C13'] = dict(
+   technique='TLA+ specs ElementGen (per-instance histories) and InterleaveGen (every interleaving) drive two live instances in one process; PairTrace validates every recorded step (acting instance == its solo run, other instance unchanged) and a probe battery against a pristine process (trace validation by TLC)',
+   level=('model_checking', 'Every interleaving TLC enumerates (all 20 for histories 3+3) of every selected pair of histories (restructuring-prone histories of 10-16 types; all same-class pairs and neighbouring different-class pairs) is executed with both instances alive in one process; TLC validates for each step that the acting instance observes exactly what it observes alone and that the other instance\'s projection is unchanged, and that a fixed probe battery over all 94 element-content types gives the digest of a pristine process before and after. Exhaustive over interleavings within the bounds.', 'DESIGN.md 3.5, 6 C13'),
+   note='trusted: the public projection, minimal child instances, TLC. Bounded to two instances and depth-3 histories; cross-process determinism is itself checked by the battery digests.', thorough=True)
 NA_REASON = 'check not built yet (construction in progress; DESIGN.md section 7 gives the order)'
 
 
